@@ -913,6 +913,16 @@ def rule_one_generator(ctx: Ctx, rid="C14.ONE-GENERATOR", only=None):
     for mod, fn, label in ((ev, rec, "recompile"), (wf, gc, "generate_code")):
         if only and label not in only:
             continue
+        if label == "recompile":
+            # decided by the abstract runs of recompile when they can follow the code: what exec receives is the generator's
+            # output for the AST parsed from this call's text, in the nested layout
+            from . import liferules as LF
+            life = LF.lifecycle(ctx)
+            if not life["undecided"]:
+                LF.decide(ctx, rid, ("fed",), construct=f"{mod.rel}:{fn.name}",
+                          ok_text=f"exec receives PythonCodeGen(parse_source(<text>), expose={life['facts'].get('expose')}).generate() and nothing else")
+                out[label] = {"problems": [m_ for _c, m_ in life["findings"]["fed"]], "expose": life["facts"].get("expose"), "wrappers": []}
+                continue
         info = trace_generated_text(ctx, mod, fn)
         out[label] = info
         con = f"{mod.rel}:{fn.name}"
